@@ -40,6 +40,8 @@ class DocEngine:
         cfg["p_save"] = rng.choice([0.15, 0.25, 0.4], "p_save")
         cfg["p_reopen"] = rng.choice([0.3, 0.5, 0.8], "p_reopen")
         cfg["src_family"] = rng.weighted([("template", 3), ("sample", 5)], "src_family")
+        if prop == "C10":
+            cfg["p_clone"] = rng.choice([0.15, 0.3, 0.6], "p_clone")
         return cfg
 
     # ----------------------------------------------------------------- init
@@ -123,8 +125,10 @@ class DocEngine:
                    ("reopen", (6 * cfg["p_reopen"]) if self._reopenable() else 0)]
         if self.prop in ("C04", "C03"):
             weights += [("clone_swap", 1), ("merge_styles", 1 if self.prop == "C04" else 0), ("save_other", 2 if self.shadow else 0)]
+        if self.prop in ("C10", "C03"):
+            weights += [("set_part_many", 2.5 if (self.prop == "C10" and self.twin is None) else 0.8)]
         if self.prop == "C10":
-            if self.twin is None and rng.chance(0.45, "clone?"):
+            if self.twin is None and rng.chance(self.cfg.get("p_clone", 0.45), "clone?"):
                 return {"op": "clone_doc"}
             weights += [("clone_part", 2), ("clone_container", 1), ("twin_save_over_source", 1.5 if (self.twin is not None and self.sut.src.get("path") and self.sut.src["packaging"] == "zip") else 0)]
         if self.prop == "C11":
@@ -192,6 +196,9 @@ class DocEngine:
             op["variants"] = [{"packaging": pk, "pretty": pr, "target": ("bytesio" if pk != "folder" and rng.chance(0.5, "vt") else "path")} for pk, pr in rng.sample(variants, k, "variants")]
             if rng.chance(self.cfg["p_fault"], "fault?"):
                 op["fault"] = {"site": rng.choice(["writestr", "write_bytes", "bytesio_write", "mkdir", "rmtree"], "fsite"), "k": rng.randint(1, 10, "fk"), "errno": rng.choice(["ENOSPC", "EIO"], "ferr"), "partial": rng.chance(0.5, "fpartial"), "at": rng.randint(0, k - 1, "fat")}
+        elif name == "set_part_many":
+            op["k"] = rng.choice([2, 5, 12, 16, 20, 30], "many_k")
+            op["n"] = n
         elif name == "clone_part":
             op["part"] = rng.choice(["content", "meta", "styles", "manifest"], "cpart")
             op["n"] = n
@@ -952,6 +959,21 @@ class DocEngine:
         self.n_edits += 1
         return []
 
+    def _op_set_part_many(self, op):
+        """many new parts at once (size knob: more parts in memory than members in the source)"""
+        doc, st = self.sut.doc, self.sut.store
+        for i in range(op["k"]):
+            name = f"Extra/m{op['n']}_{i}.bin"
+            data = _blob(op["n"] * 100 + i)
+            res, exc = self._call(lambda: doc.set_part(name, data), "set_part")
+            if exc is not None:
+                return []
+            st.set_part(name, data)
+        self.n_edits += 1
+        self.flags.add("many_new_parts")
+        self._outcome = "set_part_many"
+        return []
+
     def _op_del_part(self, op):
         doc, st = self.sut.doc, self.sut.store
         name = op["name"]
@@ -1024,7 +1046,7 @@ class DocEngine:
                 pass
         # the original stays alive, untouched from now on: it must still save what it held
         try:
-            self.shadow = {"doc": doc, "expected": self._expected_for_save(), "mimetype": st.mimetype, "flags": set(self.flags) | {"cloned"}}
+            self.shadow = {"doc": doc, "expected": self._expected_for_save(), "mimetype": st.mimetype, "flags": set(self.flags) | {"cloned"}, "src_path": self.sut.src.get("path")}
         except Exception:
             self.shadow = None
         self.sut.doc = res
@@ -1175,6 +1197,8 @@ class DocEngine:
             for a in self.artifacts:
                 if a.get("path") in (r0, g0):
                     a["dead"] = True
+        if tkind != "bytesio" and self.shadow and self.shadow.get("src_path") and self.shadow["src_path"] in (r0, g0):
+            self.shadow["flags"].add("source_overwritten_by_clone")
         res, exc = self._call(lambda: doc.save(given, **kw), "save")
         fired = self.env.disarm() if fault else False
         os.chdir(old_cwd)
